@@ -19,7 +19,6 @@ Inductive case :=
 | CWrite (fmt : N) (flags : list bool) (seps : list bytes) (recs : list record) (obs : option bytes)
   (* format, flags, separators, input text, observed records (None = mlr exited non-zero) *)
 | CRead (fmt : N) (flags : list bool) (seps : list bytes) (text : bytes) (obs : option (list record))
-| CUtf8 (s : bytes) (valid : bool)
 | CTsvCodec (s enc dec : bytes).
 
 Definition fl (l : list bool) (i : nat) : bool := nth i l false.
@@ -59,7 +58,6 @@ Definition chk (c : case) : bool :=
   match c with
   | CWrite fmt f s recs obs => obytes_eqb (model_write fmt f s recs) obs
   | CRead fmt f s text obs => match model_read fmt f s text with None => true | Some m => orecs_eqb m obs end
-  | CUtf8 s v => Bool.eqb (utf8_valid s) v
   | CTsvCodec s e d => beqb (tsv_encode s) e && beqb (tsv_decode s) d
   end.
 
